@@ -43,6 +43,46 @@ def zones(o):
     o.canary('canary: infinite zone contains only run-outs', z3.Implies(in_i, z3.Not(frac)))
 
 
+@obligation('C18', 'zones.transition', functions=[FD + '._calc_finite_infinite_transition'])
+def transition(o):
+    """_calc_finite_infinite_transition: the reported transition is 0 exactly when the series has NO run-out; with one or more run-outs it is the value of
+    _half_level_above_highest_runout (between the highest run-out load and the lowest fracture load above it), however many run-outs there are.  The run-out
+    selection is a ghost frame with an arbitrary number n >= 0 of rows (len(...), .shape[0]); the zone computation and the half-level helper are under their
+    contracts.  Added after seed C18-h turned "has run-outs" into "more than one run-out"."""
+    from pv.interp import PList
+    n = o.int('number_of_runouts')
+    H = o.real('half_level_above_highest_runout')
+    o.assume(n >= 0)
+
+    class Runouts:
+        """the selection self._obj[~self._obj.fracture]: only its row count is visible"""
+        def pv_len(self):
+            return SV(n)
+
+        def pv_getattr(self, attr):
+            if attr == 'shape':
+                return PList([SV(n), 3], 'tuple')
+            if attr == 'empty':
+                return SV(n == 0)
+            raise AttributeError(attr)
+    fd = Obj(o.cls(FD))
+    fd.fields['runouts'] = Runouts()
+    fd.fields['_finite_infinite_transition'] = None
+    o.spec(FD + '._calc_finite_zone', lambda I, args, kw: None)
+    o.spec(FD + '._half_level_above_highest_runout', lambda I, args, kw: SV(H))
+    o.track(fd)
+
+    def thunk():
+        o.I.call(o.method(fd, '_calc_finite_infinite_transition'), [])
+        return fd.fields['_finite_infinite_transition']       # (the value at the end of THIS path; run1 merges the paths)
+    got = o.run1(thunk, label='_calc_finite_infinite_transition')
+    gt = got.t if isinstance(got, SV) else z3.RealVal(float(got))
+    if z3.is_int(gt):
+        gt = z3.ToReal(gt)
+    o.prove('no run-out: transition 0', z3.Implies(n == 0, gt == 0))
+    o.prove('one or more run-outs (also exactly one): the half level above the highest run-out', z3.Implies(n >= 1, gt == H))
+
+
 # ---------------------------------------------------------------------------------------------
 def _datasets(ctx):
     """synthetic fatigue test series: Basquin line with log-normal scatter, run-outs at the cycle limit on the lower levels (seeded)"""
@@ -325,6 +365,26 @@ def b_exact(ctx):
         want_ND = ND * (wc['SD'] / SD) ** (-k) if wc['SD'] > 0 else None
         if want_ND is not None and abs(wc['ND'] - want_ND) > 1e-6 * want_ND:
             ctx.fail('C18:exact-basquin-ND', f'k={k}: ND={wc["ND"]} is not on the line at SD={wc["SD"]} ({want_ND})', {'k': k, 'SD': SD, 'ND': ND})
+    # the number of run-outs (0, 1, 2, 3 on the lowest level): the zones partition the tests at the reported transition, and one run-out gives the transition that
+    # two run-outs on the same level give (added after seed C18-h reported the transition 0.0 for a series with exactly one run-out)
+    if ctx.shard == 0:
+        base = [(L, 2e5 * (L / 400.0) ** -5 * f) for L in (480.0, 440.0, 400.0, 360.0) for f in (0.8, 1.25)] + [(330.0, 9e5)]
+        trans = {}
+        for nro in (0, 1, 2, 3):
+            dfr = pd.DataFrame(base + [(330.0, 1e7)] * nro, columns=['load', 'cycles'])
+            fdr = woehler.determine_fractures(dfr, 1e7).fatigue_data
+            tr = float(fdr.finite_infinite_transition)
+            trans[nro] = tr
+            ctx.case(True, key=('number-of-runouts', nro))
+            fin, inf_ = fdr.finite_zone, fdr.infinite_zone
+            if nro == 0:
+                if tr != 0.0 or len(inf_) != 0 or len(fin) != len(dfr):
+                    ctx.fail('C18:zones:no-runout', f'series without run-outs: transition {tr}, {len(fin)} / {len(inf_)} tests in the finite / infinite zone', {'runouts': nro})
+                continue
+            if len(fin) + len(inf_) != len(dfr) or (len(inf_) and float(inf_.load.max()) > tr) or (len(fin) and float(fin.load.min()) <= tr):
+                ctx.fail(f'C18:zones:partition-at-transition:runouts={nro}', f'series with {nro} run-out(s) at 330: reported transition {tr}, infinite zone loads {sorted(set(inf_.load))}, finite zone loads {sorted(set(fin.load))}', {'runouts': nro})
+        if len({trans[1], trans[2], trans[3]}) != 1:
+            ctx.fail('C18:zones:transition-depends-on-runout-count', f'transition for 1 / 2 / 3 run-outs on the same level: {trans[1]} / {trans[2]} / {trans[3]}', None)
     ctx.sample({'k': 5.0, 'SD': 350.0, 'ND': 2e6})
 
 
